@@ -45,7 +45,7 @@ def main():
         },
         "engines": ENGINES,
         "checks": checks,
-        "notes": "bin/check exits 2 (never 1) on machinery errors. Known findings: /verif/known_findings.json. See DESIGN.md.",
+        "notes": "bin/check exits 2 (never 1) on machinery errors. Known findings: /verif/known_findings.json and /verif/known_findings.d/<ID>.json (both read by every check; never written at run time). See DESIGN.md section 0.",
         "not_applicable": [{"property_id": i, "reason": NOT_APPLICABLE.get(i, PENDING_REASON)} for i in IDS if i not in CHECKS],
     }
     with open(os.path.join(VERIF, "MANIFEST.json"), "w") as f:
